@@ -250,11 +250,22 @@ def _judge_a(ctx, comp, par, versions, pins, reverse_order, case, second, n_repo
         return disk
     if top is not None:
         ctx.count("scenarios_with_refs_read_from_git_directories")
-    order_in = [('par', (mg.PRepo2 if second else mg.PRepo)('par', src(par, 'par'), 'origin')),
-                ('comp', type(mg.component_repo_for('comp', comp))('comp', src(comp, 'comp'), 'origin'))]
+    remote = case.get("remote") or 'origin'
+    if remote != 'origin':
+        # the repositories track another remote (given to the ProjectRepo objects, which are handed to the collection
+        # as they are); a remote called 'origin' exists too and has nothing but an old master
+        for mock in [par, comp] + ([second[0]] if second else []):
+            mock.remote = remote
+            mock.decoys = {"origin/master": min(mock.commits)}
+            mock._publish_branches()
+        ctx.count("scenarios_tracking_a_remote_other_than_origin")
+    order_in = [('par', (mg.PRepo2 if second else mg.PRepo)('par', src(par, 'par'), remote)),
+                ('comp', type(mg.component_repo_for('comp', comp))('comp', src(comp, 'comp'), remote))]
     if second:
         order_in.insert(1, ('comp2', type(mg.component_repo_for('comp2', second[0]))('comp2', src(second[0], 'comp2'),
-                                                                                    'origin')))
+                                                                                    remote)))
+    if any(isinstance(r, mg.TRepoHookNamed) for _, r in order_in):
+        ctx.count("components_whose_tag_hook_names_the_version")
     if reverse_order:
         order_in.reverse()
     try:
@@ -633,6 +644,8 @@ def run_shard(ctx):
                 "reverse": rev, "n_reports": n_reports}
         if n_reports == 1 and rng.random() < 0.15:
             case["disk_refs"] = {"seed": rng.getrandbits(32), "loose": rng.choice([0.0, 0.3, 0.6])}
+        if rng.random() < 0.15:
+            case["remote"] = rng.choice(["upstream", "up/stream"])
         if second:
             case.update(comp2=mg.describe(comp2), versions2=[[c, list(v)] for c, v in versions2],
                         pins2={str(k): v for k, v in pins2.items()})
